@@ -2865,6 +2865,11 @@ func (p *Parser) letClause(s *Stmt) {
 		p.followErrExp(lc.Let, "let")
 	}
 	p.postNested(old)
+	if p.tok == _Newl && len(p.heredocs) > p.buriedHdocs {
+		// The newline was read while the here-documents pending from before
+		// the let clause were set aside; read their bodies now.
+		p.doHeredocs()
+	}
 	s.Cmd = lc
 }
 
